@@ -1,3 +1,201 @@
 import PysphVerif.Driver.Common
-/-! Line-protocol driver for C04 (stub: not built yet). -/
-def main : IO Unit := PysphVerif.Driver.loopPure (fun _ => "bad-op")
+import PysphVerif.Model.Stepper
+import PysphVerif.Gen.Timesteps
+/-!
+Line protocol for C04 (times are doubles, bit patterns).
+
+  `run mode=<impl|lit> prog=<P> cb=<0|1> nev=<n> arrs=<A>|<A>|… steps=<t>:<dt>,<t>:<dt>,…`
+     P  = `@<qualified class name>` (program from Gen/Timesteps.lean) or a wire
+          program: statements joined by `;` — `I`, `S<k>`, `A<i>:<0|1>`, `D`,
+          `P<k>:<expr>` with <expr> prefix, comma separated:
+          `dt` `t` `lit:<num>:<den>` `add,a,b` `sub,a,b` `mul,a,b` `div,a,b` `neg,a`
+     A  = `<name>:<nreal>:<nghost>:<methods>:<hooks>:<grow>` with methods/hooks
+          `-` or `i`/`<k>` joined by `+`, grow `-` or `<m>~<n>` joined by `+`
+          (the py hook of method m adds n real particles)
+  answers `compile-error` when the pasted body would not compile, else the
+  events separated by blanks:
+     `h:<name>:<m>:<t>:<dt>` `s:<name>:<m>:<i>:<t>:<dt>` `n` `e:<i>:<t>:<dt>` `d` `c:<t>:<dt>:<k>`
+  `table`   answers `<class>=<owner>=<wire program>` for every Gen entry
+  `steppers` answers `<class>=<methods>=<hooks>` for every Gen stepper entry
+-/
+namespace PysphVerif.Driver.C04
+open PysphVerif.Wire PysphVerif.Stepper
+
+def parseMeth? (s : String) : Option Meth :=
+  if s = "i" then some .initialize else (parseNat? s).map Meth.stage
+
+def showMeth : Meth → String
+  | .initialize => "i"
+  | .stage k => toString k
+
+def parseMeths? (s : String) : Option (List Meth) :=
+  if s = "-" then some [] else (s.splitOn "+").mapM parseMeth?
+
+def showMeths (l : List Meth) : String :=
+  if l.isEmpty then "-" else "+".intercalate (l.map showMeth)
+
+/-- prefix expression parser over a token list; returns the rest -/
+def parseExprToks : Nat → List String → Option (Expr × List String)
+  | 0, _ => none
+  | _, [] => none
+  | fuel + 1, tok :: rest =>
+    if tok = "dt" then some (.dt, rest)
+    else if tok = "t" then some (.t, rest)
+    else if tok = "neg" then do
+      let (a, r) ← parseExprToks fuel rest
+      pure (.neg a, r)
+    else if tok = "add" ∨ tok = "sub" ∨ tok = "mul" ∨ tok = "div" then do
+      let (a, r1) ← parseExprToks fuel rest
+      let (b, r2) ← parseExprToks fuel r1
+      let e := if tok = "add" then Expr.add a b else if tok = "sub" then Expr.sub a b
+               else if tok = "mul" then Expr.mul a b else Expr.div a b
+      pure (e, r2)
+    else
+      match tok.splitOn ":" with
+      | ["lit", n, d] => do
+        let n ← parseInt? n
+        let d ← parseNat? d
+        if d = 0 then none else pure (.lit n d, rest)
+      | _ => none
+
+def parseExpr? (s : String) : Option Expr :=
+  let toks := s.splitOn ","
+  match parseExprToks (toks.length + 1) toks with
+  | some (e, []) => some e
+  | _ => none
+
+def parseCmd? (s : String) : Option Cmd :=
+  match s.toList with
+  | ['I'] => some .initialize
+  | ['D'] => some .updateDomain
+  | 'S' :: r => (parseNat? (String.ofList r)).map Cmd.stage
+  | 'A' :: r =>
+    match (String.ofList r).splitOn ":" with
+    | [i, u] => do
+      let i ← parseNat? i
+      let u ← if u = "1" then some true else if u = "0" then some false else none
+      pure (.computeAccelerations i u)
+    | _ => none
+  | 'P' :: r =>
+    match (String.ofList r).splitOn ":" with
+    | k :: e => do
+      let k ← parseNat? k
+      let e ← parseExpr? (":".intercalate e)
+      pure (.doPostStage e k)
+    | _ => none
+  | _ => none
+
+def parseProgram? (s : String) : Option Program :=
+  if s = "_" then some []
+  else if s.startsWith "@" then
+    ((Gen.Timesteps.programs.find? (fun x => "@" ++ x.1 == s)).map (·.2.2))
+  else (s.splitOn ";").mapM parseCmd?
+
+partial def showExpr : Expr → String
+  | .dt => "dt"
+  | .t => "t"
+  | .lit n d => s!"lit:{n}:{d}"
+  | .add a b => s!"add,{showExpr a},{showExpr b}"
+  | .sub a b => s!"sub,{showExpr a},{showExpr b}"
+  | .mul a b => s!"mul,{showExpr a},{showExpr b}"
+  | .div a b => s!"div,{showExpr a},{showExpr b}"
+  | .neg a => s!"neg,{showExpr a}"
+
+def showCmd : Cmd → String
+  | .initialize => "I"
+  | .stage k => s!"S{k}"
+  | .computeAccelerations i u => s!"A{i}:{if u then 1 else 0}"
+  | .updateDomain => "D"
+  | .doPostStage e k => s!"P{k}:{showExpr e}"
+
+def showProgram (p : Program) : String :=
+  if p.isEmpty then "_" else ";".intercalate (p.map showCmd)
+
+structure ArrIn where
+  cfg : ArrayCfg
+  nreal : Nat
+  nghost : Nat
+  grow : List (Meth × Nat)
+
+def parseGrow? (s : String) : Option (List (Meth × Nat)) :=
+  if s = "-" then some [] else
+  (s.splitOn "+").mapM (fun p => match p.splitOn "~" with
+    | [m, n] => do
+      let m ← parseMeth? m
+      let n ← parseNat? n
+      pure (m, n)
+    | _ => none)
+
+def parseArr? (s : String) : Option ArrIn :=
+  match s.splitOn ":" with
+  | [name, nr, ng, ms, hs, gr] => do
+    if name.isEmpty then none
+    let nr ← parseNat? nr
+    let ng ← parseNat? ng
+    let ms ← parseMeths? ms
+    let hs ← parseMeths? hs
+    let gr ← parseGrow? gr
+    pure { cfg := { name := name, sig := { methods := ms, hooks := hs } },
+           nreal := nr, nghost := ng, grow := gr }
+  | _ => none
+
+def parseStep? (s : String) : Option (Float × Float) :=
+  match s.splitOn ":" with
+  | [t, dt] => do
+    let t ← parseFloatBits? t
+    let dt ← parseFloatBits? dt
+    pure (t, dt)
+  | _ => none
+
+def fb := showFloatBits
+
+def showEvent : Event Float → String
+  | .hook d m t dt => s!"h:{d}:{showMeth m}:{fb t}:{fb dt}"
+  | .step d m i t dt => s!"s:{d}:{showMeth m}:{i}:{fb t}:{fb dt}"
+  | .nnps => "n"
+  | .eval i t dt => s!"e:{i}:{fb t}:{fb dt}"
+  | .domain => "d"
+  | .callback t dt k => s!"c:{fb t}:{fb dt}:{k}"
+
+def growFn (arrs : List ArrIn) (d : String) (m : Meth) : Nat :=
+  match arrs.find? (fun a => a.cfg.name == d) with
+  | none => 0
+  | some a => match a.grow.find? (fun g => g.1 == m) with
+    | none => 0
+    | some g => g.2
+
+def handleRun (kv : List (String × String)) : Option String := do
+  let mode ← lookup kv "mode"
+  let prog ← (lookup kv "prog") >>= parseProgram?
+  let cb ← lookup kv "cb"
+  let cb ← if cb = "1" then some true else if cb = "0" then some false else none
+  let nev ← (lookup kv "nev") >>= parseNat?
+  let arrsS ← lookup kv "arrs"
+  let arrs ← if arrsS = "_" then some [] else (arrsS.splitOn "|").mapM parseArr?
+  let stepsS ← lookup kv "steps"
+  let steps ← if stepsS = "_" then some [] else (stepsS.splitOn ",").mapM parseStep?
+  let cfg : Cfg := { arrays := arrs.map (·.cfg), hasCallback := cb, nEvals := nev }
+  if !(wellFormed cfg prog) then pure "compile-error" else
+  let W := traceWorld (τ := Float) (growFn arrs)
+  let s0 : TState Float := { events := [], sizes := arrs.map (fun a => (a.cfg.name, a.nreal, a.nghost)) }
+  let A := Arith.float
+  let out ←
+    if mode = "impl" then
+      some (runR A W cfg prog steps ({ origT := 0.0, t := 0.0, dt := 0.0 }, s0)).2
+    else if mode = "lit" then some (literalRun A W cfg prog steps s0)
+    else none
+  pure (if out.events.isEmpty then "_" else " ".intercalate (out.events.map showEvent))
+
+def handle (line : String) : String :=
+  match tokens line with
+  | "run" :: rest => (handleRun (kvs rest)).getD "bad-op"
+  | ["table"] =>
+    " ".intercalate (Gen.Timesteps.programs.map (fun x => s!"{x.1}={x.2.1}={showProgram x.2.2}"))
+  | ["steppers"] =>
+    " ".intercalate (Gen.Timesteps.steppers.map
+      (fun x => s!"{x.1}={showMeths x.2.methods}={showMeths x.2.hooks}"))
+  | _ => "bad-op"
+
+end PysphVerif.Driver.C04
+
+def main : IO Unit := PysphVerif.Driver.loopPure PysphVerif.Driver.C04.handle
